@@ -246,6 +246,8 @@ def evaluate(case):
                 syms = leaf_symptoms(e, o)
                 if syms is None:
                     sym = "literal-differs" if isinstance(e, str) and lit in e else "other-field-differs"
+                    if isinstance(o, str) and "pars_m_single" in o and isinstance(e, str) and o.replace("pars_m_single", "'") == e:
+                        sym = "escaped-quote-placeholder-left-in-output"  # the internal stand-in for \' was not turned back
                     if case["pos"].startswith("alter_") and p.startswith("/0/alter") and o == "<absent>":
                         sym = "alter-statement-lost"  # the table is there, the ALTER statement that carries the literal left no trace
                     diffs.append(diff(ptr, sym, e, o))
